@@ -597,6 +597,7 @@ class C15(SmallSuite):
                         # ONE Point object per coordinate tuple, whichever instance is asked
                         point_obj = shared_pts.setdefault(tuple(pt), point_obj)
                         arr = point_obj.floatVariables
+                        cp = np.array(arr, copy=True)
                         rep.probes["evaluations_through_a_shared_point_object"] += 1
                     holder = FunctionValue() if fid is None else FunctionValue(FunctionType.CONSTRAINT, fid)
                     if op.get("holder") == "reuse":
